@@ -47,6 +47,11 @@ fn check(prop: &str, tier: Tier) {
             let cov = vh::c03::check(&run);
             run.finish(cov, &["the independent decoder is bound to the document by its worked examples; where the document and the implementation cannot both be right (UniqueId layout, Faces bit order, Content.SourceTypes, undocumented type ids) the document's reading decides and the divergence is a listed finding", "LZ4 blocks decoded by the harness's own decoder, Zstandard by libzstd's streaming API"]);
         }
+        "C04" => {
+            let run = Run::new("C04", tier, "model_checking");
+            let cov = vh::c04::check(&run);
+            run.finish(cov, &["input files come from an independent encoder written from docs/binary.md (harness/src/specbin.rs::enc), checked against the independent decoder on every file", "degrees of freedom are swept one at a time around a base encoding (thorough: full product on DOMs of <= 2 instances)", "UniqueId / Faces / Content.SourceTypes are encoded in the implementation's reading except in the three dedicated document-reading cases"]);
+        }
         "C06" => {
             let run = Run::new("C06", tier, "model_checking");
             let cov = vh::c06::check(&run);
@@ -386,6 +391,7 @@ fn replay(prop: &str, file: &std::path::Path) {
         "C15" => simple_replay("C15", vh::c15::replay(case)),
         "C06" => simple_replay("C06", vh::c06::replay(case)),
         "C03" => simple_replay("C03", vh::c03::replay(case)),
+        "C04" => simple_replay("C04", vh::c04::replay(case)),
         "C08" => simple_replay("C08", vh::c08::replay(case)),
         "C07" => simple_replay("C07", vh::c07::replay(case)),
         "C13" => simple_replay("C13", vh::c13::replay(case)),
